@@ -521,6 +521,8 @@ def run_pack(pack):
     sides = {}
     labels = []
     for side in ('reference', 'compiled'):
+        from vlib.build import reset_group_counter
+        reset_group_counter()
         arrays = make_arrays(pack['dim'], nslot)
         init = snapshot(arrays)
         results = []
@@ -561,7 +563,7 @@ def run_pack(pack):
             ae = AccelerationEval(arrays, groups, kernel)
             SPHCompiler(ae, None).compile()
             ae.set_nnps(nn)
-            ae.compute(0.25, 0.0625)
+            ae.compute(0.3, 0.07)
             sides[side] = dict(results)
         else:
             res = {}
@@ -571,7 +573,7 @@ def run_pack(pack):
                 restore(arrays, init)
                 try:
                     Interp(arrays, groups[2 * gi:2 * gi + 2], kernel,
-                           nn).compute(0.25, 0.0625)
+                           nn).compute(0.3, 0.07)
                     res[gi] = results[0][1]
                 except Exception as ex:  # noqa
                     err[gi] = '%s: %s' % (type(ex).__name__, str(ex)[:200])
